@@ -15,7 +15,9 @@ Record case := {
   k_decl : option decls;                     (* VCF: declared INFO keys *)
   k_width : Z;                               (* wrapped FASTA: bases per line *)
   k_file : list Z;                           (* the bytes given to the library (final line break normalised) *)
-  k_obs : obs                                (* what bnp.open(...).read() returned, column by column *)
+  k_obs : obs;                               (* what bnp.open(...).read() returned, column by column *)
+  k_sel : option (list Z * obs)              (* a row subset taken BEFORE the first parse (record numbers, NumPy-normalised) and
+                                                the columns then parsed from it (table[sel] / buffer[sel].get_data()) *)
 }.
 
 (* expected value e against observed value o; doubles within relative 2^-50 of the exact value *)
@@ -56,9 +58,17 @@ Definition spec_ok (c : case) : bool :=
                         && list_eqb col_match (spec_cols (k_fmt c) (k_decl c) (k_recs c)) cols
   end.
 
-Definition model_ok (c : case) : bool :=
-  match run (k_fmt c) (k_decl c) (k_file c), k_obs c with
+Definition obs_same (m o : obs) : bool :=
+  match m, o with
   | ObsErr, ObsErr => true
   | Obs n cols _, Obs n' cols' _ => (n =? n') && list_eqb col_same cols cols'
   | _, _ => false
   end.
+(* the subset-then-parse route: Model.run_sel on the same record numbers *)
+Definition sel_ok (c : case) : bool :=
+  match k_sel c with
+  | None => true
+  | Some (idx, o) => obs_same (run_sel (k_fmt c) (k_decl c) (k_file c) idx) o
+  end.
+Definition model_ok (c : case) : bool :=
+  obs_same (run (k_fmt c) (k_decl c) (k_file c)) (k_obs c) && sel_ok c.
